@@ -1,8 +1,8 @@
 #!/bin/bash
-# usage: verify_seed.sh <Cxx> ; verifies both mutants of /tmp/seed/<Cxx>/SEED in that scratch worktree
+# usage: [SEEDROOT=/tmp/seed3 SEEDTAG=r3-] verify_seed.sh <Cxx> ; verifies both mutants of $SEEDROOT/<Cxx>/SEED in that scratch worktree
 P=$1
-W=/tmp/seed/$P
-L=/verif/.work/seedlogs/$P.log
+W=${SEEDROOT:-/tmp/seed}/$P
+L=/verif/.work/seedlogs/${SEEDTAG:-}$P.log
 cd $W || exit 1
 : > $L
 git checkout -q -- src tests 2>/dev/null
